@@ -9,6 +9,7 @@ RULE = (
     "every source was closed or ran to exhaustion (async generator: frame gone; class-based: aclose() called or "
     "StopAsyncIteration delivered). non-trivial = the tool was advanced and did not simply run dry; distinct by case content"
 )
+AMPLIFY = "search"   # on a source change: quick cases + the failing-input search (the thorough generator is minutes / GBs)
 EXHAUSTIVE = {"quick": True, "thorough": True}
 SCOPE = {"quick": "L=3, <=3 sources, all cut points, all single fault positions (faults on cut cases sampled)",
          "thorough": "L=4, <=4 sources, all cut points x all single fault positions"}
